@@ -687,10 +687,11 @@ if parallel.use_mpi():
         overwrite: bool = True,
         buffersize: int = -1,
         num_patches: int | None = None,
+        num_senders: int = 1,
     ) -> None:
         """A dedicated writer process that recieves a dictionary with patch IDs
         and patch data to write using a :obj:`CatalogWriter`, terminated when
-        receiving :obj:`EndOfQueue` sentinel."""
+        receiving an :obj:`EndOfQueue` sentinel from each of the senders."""
         recv = parallel.COMM.recv
         with CatalogWriter(
             cache_directory,
@@ -699,8 +700,15 @@ if parallel.use_mpi():
             buffersize=buffersize,
             num_patches=num_patches,
         ) as writer:
-            while (patches := recv(source=MPI.ANY_SOURCE, tag=1)) is not EndOfQueue:
-                writer.process_patches(patches)
+            # only messages from the same sender are guaranteed to arrive in
+            # order, so every sender must announce the end of its own data
+            active_senders = num_senders
+            while active_senders > 0:
+                patches = recv(source=MPI.ANY_SOURCE, tag=1)
+                if patches is EndOfQueue:
+                    active_senders -= 1
+                else:
+                    writer.process_patches(patches)
 
     def write_patches(
         path: Path | str,
@@ -771,6 +779,7 @@ if parallel.use_mpi():
                     if patch_centers is None
                     else len(get_patch_centers(patch_centers))
                 ),
+                num_senders=len(worker_config.active_ranks),
             )
 
         elif rank in worker_config.active_ranks:
@@ -787,9 +796,8 @@ if parallel.use_mpi():
                 )
 
             worker_comm.Free()
-
-        if parallel.COMM.Get_rank() == worker_config.reader_rank:
             parallel.COMM.send(EndOfQueue, dest=worker_config.writer_rank, tag=1)
+
         parallel.COMM.Barrier()
 
 else:
